@@ -17,13 +17,13 @@ FLAT_LOGICAL = {1: jelly.LOGICAL_STREAM_TYPE_FLAT_TRIPLES, 2: jelly.LOGICAL_STRE
 
 
 def make_options(phys, frame_size=250, delimited=True, names=8, prefixes=8, datatypes=8, logical=None,
-                 ns=False, stream_name="", flow=None, generalized=True, rdf_star=True):
+                 ns=False, stream_name="", flow=None, generalized=True, rdf_star=True, version=None):
     return SerializerOptions(
         flow=flow,
         frame_size=frame_size,
         logical_type=FLAT_LOGICAL[phys] if logical is None else logical,
         params=StreamParameters(generalized_statements=generalized, rdf_star=rdf_star, delimited=delimited,
-                                namespace_declarations=ns, stream_name=stream_name),
+                                namespace_declarations=ns, stream_name=stream_name, **({} if version is None else {"version": version})),
         lookup_preset=LookupPreset(max_names=names, max_prefixes=prefixes, max_datatypes=datatypes),
     )
 
